@@ -908,7 +908,7 @@ func c28Gen(t *rapid.T) c28Case {
 			}
 		}
 		st.Desired = c28Normalize(st.Desired)
-		if rapid.IntRange(0, 5).Draw(t, "hasfail") == 0 {
+		if rapid.IntRange(0, 8).Draw(t, "hasfail") == 0 {
 			st.Fail = rapid.SliceOfN(rapid.IntRange(0, 40), 1, 2).Draw(t, "fail")
 		}
 		switch rapid.IntRange(0, 3).Draw(t, "mimicmode") {
